@@ -56,6 +56,16 @@ def check_case(rep, case, closed, stats, max_perms):
         if closed:
             tol = 2e-5 if name.startswith("hellinger") else max(tol, 1e-8)   # clipping at 1e-12: sqrt(1e-12 pi) ~ 1e-6
         for label, g in gem.code_instances(name)[:1]:
+            # the same object is first asked with single-precision predictions: allowed to be less accurate, not allowed to
+            # leave anything behind that changes the double-precision answer below
+            try:
+                v32 = float(g(P.astype(np.float32), None if A is None else A.copy()))
+                if not (abs(v32 - expected) <= 1e-3 * max(1.0, abs(expected))) and not closed:
+                    rep.violation(f"{cdesc}: {name}[{aff}] on float32 predictions: {v32!r} vs spec {expected!r}",
+                                  {"case": _c(case), "name": name, "aff": aff}, tags=(name, "float32"))
+            except Exception as e:
+                rep.violation(f"{cdesc}: {name}[{aff}] on float32 predictions raised {type(e).__name__}: {e}",
+                              {"case": _c(case), "name": name, "aff": aff}, tags=(name, "float32", "raises"))
             got = float(g(P.copy(), None if A is None else A.copy()))
             rep.case((n, k, q, case["a"], x, name, aff, closed))
             if not (abs(got - expected) <= tol * max(1.0, abs(expected))):
